@@ -179,6 +179,30 @@ theorem gcReset_inv (ic : Bool) (t : GcTarget) (st : AnsiState) (A0 : Attr) (h :
     · rcases h7 with h | h <;> simp_all
     · rcases h8 with h | h <;> simp_all
 
+/-- after the reset block no flag is set that the cell does not want (no assumption on the reader) -/
+theorem gcReset_mono (t : GcTarget) (st : AnsiState) : Mono t (gcReset t st).1 := by
+  unfold gcReset
+  by_cases hr : gcNeedReset t st = true
+  · rw [if_pos hr]
+    refine ⟨?_, ?_, ?_, ?_, ?_, ?_, ?_, ?_⟩ <;> intro h' <;> cases h'
+  · rw [if_neg hr]
+    have hr' : gcNeedReset t st = false := by
+      cases hq : gcNeedReset t st with
+      | false => rfl
+      | true => exact absurd hq hr
+    unfold gcNeedReset at hr'
+    simp only [Bool.or_eq_false_iff, Bool.and_eq_false_iff, Bool.not_eq_false'] at hr'
+    obtain ⟨⟨⟨⟨⟨⟨⟨⟨h1, h2⟩, h3⟩, h4⟩, h5⟩, h6⟩, h7⟩, h8⟩, _⟩ := hr'
+    refine ⟨?_, ?_, ?_, ?_, ?_, ?_, ?_, ?_⟩ <;> intro hs
+    · rcases h1 with h | h <;> simp_all
+    · rcases h2 with h | h <;> simp_all
+    · rcases h4 with h | h <;> simp_all
+    · rcases h3 with h | h <;> simp_all
+    · rcases h5 with h | h <;> simp_all
+    · rcases h6 with h | h <;> simp_all
+    · rcases h7 with h | h <;> simp_all
+    · rcases h8 with h | h <;> simp_all
+
 /-! ### the flag blocks -/
 
 /-- a block of the shape `if cond { sgr.push(k); state = upS(state) }` keeps the simulation when the reader's reaction to
@@ -382,7 +406,7 @@ theorem gcTarget_dos (im : IceMode) (attr : Attr) (ha : Attr16 (decide (im = .ic
 /-- the foreground block -/
 theorem gcFg_inv (o : AnsiOpts) (t : GcTarget) (A0 : Attr) (ic kb : Bool) (x : GcAcc) (fgc : Nat) (hf : fgc < 16)
     (ht1 : t.curFore = getRgb dosPalette fgc) (ht2 : t.fgc = fgc) (ht3 : t.foreIdx = some (if fgc < 8 then fgc else fgc - 8))
-    (hb : x.1.isBold = decide (8 ≤ fgc)) (h : GcInv A0 ic kb x) :
+    (ht4 : t.bold = decide (8 ≤ fgc)) (hb : x.1.isBold = decide (8 ≤ fgc)) (h : GcInv A0 ic kb x) :
     (gcFg o t x).2.2 = [] ∧ GcInv A0 ic kb ((gcFg o t x).1, (gcFg o t x).2.1) ∧
     (sgrSimple A0 (gcFg o t x).2.1).fg + (if 8 ≤ fgc then 8 else 0) = fgc ∧
     stFlags (gcFg o t x).1 = stFlags x.1 := by
@@ -403,11 +427,11 @@ theorem gcFg_inv (o : AnsiOpts) (t : GcTarget) (A0 : Attr) (ic kb : Bool) (x : G
       rw [e]
       refine ⟨fl, hi, bgl, ?_, ?_, cb, bi⟩
       · intro hb'
-        show t.fgc = _
-        rw [ht2]
-        have : ¬ (8 ≤ fgc) := by
+        show (if fgc < 8 then fgc else fgc - 8) + (if t.bold = true then 8 else 0) = _
+        have h8 : ¬ (8 ≤ fgc) := by
           intro h8; rw [hb] at hb'; simp [h8] at hb'
-        rw [if_pos (by omega)]
+        have htb : t.bold = false := by rw [ht4]; simp [h8]
+        rw [htb]; simp
       · show t.curFore = getRgb dosPalette ((if fgc < 8 then fgc else fgc - 8) + if x.1.isBold = true then 8 else 0)
         rw [ht1, hb]
         by_cases h8 : 8 ≤ fgc
@@ -577,7 +601,7 @@ theorem sgr_sync (o : AnsiOpts) (im : IceMode) (attr : Attr) (ha : Attr16 (decid
     have := congrArg Flags.blink F1
     simpa only [stFlags] using this
   show (gcBg o t (gcFg o t (afterFlags t (gcReset t st)))).2.2 = [] ∧ _
-  obtain ⟨G1, G2, G3, G4⟩ := gcFg_inv o t A0 ic _ (afterFlags t (gcReset t st)) (dispFg attr) hd t1 t2 t3 hbold I1
+  obtain ⟨G1, G2, G3, G4⟩ := gcFg_inv o t A0 ic _ (afterFlags t (gcReset t st)) (dispFg attr) hd t1 t2 t3 t6 hbold I1
   have hG4b : (gcFg o t (afterFlags t (gcReset t st))).1.isBlink = t.blink := by
     have := congrArg Flags.blink G4
     simp only [stFlags] at this
